@@ -51,11 +51,22 @@ Definition api_flags (o : other) (fl : flags) : flags :=
   then mkFlags (unroll_loops fl) (inline_functions fl) true else fl.
 
 (* ---------- source: flat Modelica (after flattening), variables are numbered ---------- *)
+(* subscripts of the loop index i inside a for-loop: i+k, c-i (reversal), a*i+c, i*i *)
+Inductive iexpr := IOff (k : Z) | IRev (c : Z) | ILin (a c : Z) | ISq.
+Definition ieval (ix : iexpr) (i : Z) : Z :=
+  match ix with
+  | IOff k => i + k
+  | IRev c => c - i
+  | ILin a c => a * i + c
+  | ISq => i * i
+  end%Z.
+(* a bare `x[i]`: the ComponentRef case of get_indexed_symbol, no index expression *)
+Definition is_bare (ix : iexpr) : bool := match ix with IOff 0%Z => true | _ => false end.
 Inductive sref :=
 | SV (x : nat)                 (* scalar variable *)
 | SD (x : nat)                 (* der(x) *)
 | SI (x : nat) (k : Z)         (* x[k], constant 1-based subscript *)
-| SL (x : nat) (k : Z)         (* x[i+k] inside a for-loop over i *)
+| SL (x : nat) (ix : iexpr)    (* x[<ix>(i)] inside a for-loop over i *)
 | SLoop                        (* the loop index as a number *)
 | SArg (j : nat).              (* formal input / output / local of a function *)
 Inductive sx :=
@@ -281,14 +292,14 @@ Definition gen_ref (vals : option (list Z)) (r : sref) : gref :=
   | SV x => RV x
   | SD x => RD x
   | SI x k => RE x (k - 1)
-  | SL x k =>
+  | SL x ix =>
       match vals with
       | Some vs =>
           (* register_indexed_symbol: a bare index uses the values, an index expression is mapped
              with map_mode (line 68-73); then `indices - 1` (line 85) *)
-          let idx := if (k =? 0)%Z then vs else imapS (map_mode fl) (fun i => (i + k)%Z) vs in
+          let idx := if is_bare ix then vs else imapS (map_mode fl) (ieval ix) vs in
           RG x (map (fun j => (j - 1)%Z) idx)
-      | None => RE x (k - 1)
+      | None => RE x (ieval ix 0 - 1)
       end
   | SLoop => RLoop
   | SArg j => RArg j
